@@ -148,6 +148,9 @@ fn run<F: MathFunction + RenderHints>(case: &Case, cx: &mut Cx) -> CheckResult {
             let mut runs = 0;
             let mut prev_in = false;
             let mut tainted = false;
+            // some voxel of the column has a NaN value born from an infinite
+            // operand, which interval arithmetic does not see (finding F11)
+            let mut nan_inf = false;
             for k in 0..d_ext {
                 let (qx, qy, qz) =
                     <f32 as Transformable>::transform(i as f32, j as f32, k as f32, &mat);
@@ -159,6 +162,9 @@ fn run<F: MathFunction + RenderHints>(case: &Case, cx: &mut Cx) -> CheckResult {
                     if flat.taint(&vals)[ri] {
                         tainted = true;
                     }
+                }
+                if v.is_nan() && flat.nan_from_inf(&vals) {
+                    nan_inf = true;
                 }
                 let inside = v < 0.0;
                 if inside {
@@ -184,6 +190,16 @@ fn run<F: MathFunction + RenderHints>(case: &Case, cx: &mut Cx) -> CheckResult {
             }
             cx.ev.count("columns_checked");
             let expected = top.map(|k| k as u32 + 1).unwrap_or(0);
+            if px.depth != expected && nan_inf {
+                if cx.known("F11-tile-decided-over-nan-from-infinity") {
+                    continue;
+                }
+                fail!(
+                    "F11-tile-decided-over-nan-from-infinity",
+                    "pixel ({i},{j}): depth {} but brute force gives {expected}; a voxel of this column has a NaN value born from an infinite operand, which the interval evaluator does not see",
+                    px.depth
+                );
+            }
             if px.depth != expected {
                 fail!(
                     "depth-wrong",
